@@ -124,6 +124,26 @@ func (e *localEnd) accept(id uint32, delay time.Duration) {
 	}()
 }
 
+// acceptSlow: after delay, Accept(id) and only serveDelay later start serving the listener (a caller
+// that uses Accept and its own grpc.Server instead of AcceptAndServe, and is slow to get there).
+// Only for ends without TLS (the in-process pair).
+func (e *localEnd) acceptSlow(id uint32, delay, serveDelay time.Duration) {
+	go func() {
+		time.Sleep(delay)
+		ln, err := e.br.Accept(id)
+		if err != nil {
+			return
+		}
+		time.Sleep(serveDelay)
+		s := grpc.NewServer()
+		registerHarness(s, "verif.Brokered", &impl{tag: Tag{Pid: os.Getpid(), Broker: id, Side: e.name, Proto: "grpc", Serial: atomic.AddInt64(&globalSerial, 1)}})
+		e.mu.Lock()
+		e.stops = append(e.stops, s.Stop)
+		e.mu.Unlock()
+		s.Serve(ln)
+	}()
+}
+
 func (e *localEnd) dial(id uint32, delay time.Duration) (Tag, error) {
 	time.Sleep(delay)
 	cc, err := e.br.Dial(id)
